@@ -374,6 +374,10 @@ def elements(H, tier):
         out.append((cls, [new(cls, "bf", name="bf", initial_level=1, final_level=2),
                           con("TaskLoadBuffer", "c1", task=R("a"), buffer=R("bf"), quantity=1),
                           con("TaskUnloadBuffer", "c2", task=R("b"), buffer=R("bf"), quantity=1)]))
+        # a phantom load by the unscheduled task would hide a bound violation
+        out.append((cls, [new(cls, "bf", name="bf", initial_level=1, final_level=0, lower_bound=0),
+                          con("TaskUnloadBuffer", "c1", task=R("b"), buffer=R("bf"), quantity=2),
+                          con("TaskLoadBuffer", "c2", task=R("a"), buffer=R("bf"), quantity=1)]))
     # indicators and objectives
     out.append(("ind:utilization", W + [new("IndicatorResourceUtilization", "i1", resource=R("w"))]))
     out.append(("ind:assigned", W + [new("IndicatorNumberTasksAssigned", "i1", resource=R("w"))]))
